@@ -431,7 +431,7 @@ pub fn derive_cfrom14() {
 }
 
 // ---- C15: member order never changes the outcome (relational: same members, both orders, keep-going) -----------
-fn same_multiset(a: &Rec, b: &Rec) -> bool {
+pub fn same_multiset(a: &Rec, b: &Rec) -> bool {
     if a.n != b.n { return false; }
     let mut used = [false; CAP];
     let mut i = 0;
